@@ -755,7 +755,18 @@ Varable failures: {var_failed}
             )
 
         if overwrite:
+            times = None
             if 'TFLAG' in self.variables:
+                oldtflag = self.variables['TFLAG']
+                # a TFLAG that only has the wrong number of variables still
+                # holds the time of every step (they need not be regular)
+                if (
+                    startdate is None and tstep is None and
+                    oldtflag.ndim == 3 and oldtflag.shape[1] > 0 and
+                    'TSTEP' in self.dimensions and
+                    oldtflag.shape[0] == len(self.dimensions['TSTEP'])
+                ):
+                    times = self.getTimes()
                 del self.variables['TFLAG']
             if startdate is not None:
                 self.SDATE = int(startdate.strftime('%Y%j'))
@@ -763,7 +774,8 @@ Varable failures: {var_failed}
             if tstep is not None:
                 self.TSTEP = tstep
 
-            times = self.getTimes()
+            if times is None:
+                times = self.getTimes()
             tvar = self.createVariable(
                 'TFLAG', 'i', ('TSTEP', 'VAR', 'DATE-TIME'))
             tvar.units = '<YYYYDDD,HHMMSS>'.ljust(16)
